@@ -523,3 +523,83 @@ func c19Capabilities(t *testing.T, rec *stats.Recorder) {
 	}
 	rec.Bulk(256, 256, "all-version-numbers")
 }
+
+// The version list helpers: each returns exactly the supported versions its name (and the matching predicate) selects, in
+// ascending order, and the slice belongs to the caller - overwriting or truncating it must not change what the library
+// answers afterwards (neither the helpers nor IsSupported / CheckSupportedProtocolVersion).
+func TestC19Lists(t *testing.T) {
+	rec := stats.For("C19")
+	spec := []p.ProtocolVersion{2, 3, 4, 5, 0x41, 0x42}
+	inSpec := map[p.ProtocolVersion]bool{}
+	for _, v := range spec {
+		inSpec[v] = true
+	}
+	sel := func(pred func(v p.ProtocolVersion) bool) []p.ProtocolVersion {
+		var out []p.ProtocolVersion
+		for _, v := range spec {
+			if pred(v) {
+				out = append(out, v)
+			}
+		}
+		return out
+	}
+	type helper struct {
+		name string
+		call func() []p.ProtocolVersion
+		want []p.ProtocolVersion
+	}
+	helpers := []helper{
+		{"SupportedProtocolVersions", p.SupportedProtocolVersions, spec},
+		{"SupportedOssProtocolVersions", p.SupportedOssProtocolVersions, sel(func(v p.ProtocolVersion) bool { return v < 0x40 })},
+		{"SupportedDseProtocolVersions", p.SupportedDseProtocolVersions, sel(func(v p.ProtocolVersion) bool { return v >= 0x40 })},
+		{"SupportedBetaProtocolVersions", p.SupportedBetaProtocolVersions, sel(func(v p.ProtocolVersion) bool { return v.IsBeta() })},
+		{"SupportedNonBetaProtocolVersions", p.SupportedNonBetaProtocolVersions, sel(func(v p.ProtocolVersion) bool { return !v.IsBeta() })},
+	}
+	for _, pivot := range spec {
+		pivot := pivot
+		helpers = append(helpers,
+			helper{fmt.Sprintf("SupportedProtocolVersionsGreaterThanOrEqualTo(%#x)", uint8(pivot)), func() []p.ProtocolVersion { return p.SupportedProtocolVersionsGreaterThanOrEqualTo(pivot) }, sel(func(v p.ProtocolVersion) bool { return v >= pivot })},
+			helper{fmt.Sprintf("SupportedProtocolVersionsGreaterThan(%#x)", uint8(pivot)), func() []p.ProtocolVersion { return p.SupportedProtocolVersionsGreaterThan(pivot) }, sel(func(v p.ProtocolVersion) bool { return v > pivot })},
+			helper{fmt.Sprintf("SupportedProtocolVersionsLesserThanOrEqualTo(%#x)", uint8(pivot)), func() []p.ProtocolVersion { return p.SupportedProtocolVersionsLesserThanOrEqualTo(pivot) }, sel(func(v p.ProtocolVersion) bool { return v <= pivot })},
+			helper{fmt.Sprintf("SupportedProtocolVersionsLesserThan(%#x)", uint8(pivot)), func() []p.ProtocolVersion { return p.SupportedProtocolVersionsLesserThan(pivot) }, sel(func(v p.ProtocolVersion) bool { return v < pivot })},
+		)
+	}
+	same := func(a, b []p.ProtocolVersion) bool {
+		if len(a) != len(b) {
+			return false
+		}
+		for i := range a {
+			if a[i] != b[i] {
+				return false
+			}
+		}
+		return true
+	}
+	n := int64(0)
+	for round := 0; round < 3; round++ {
+		for _, h := range helpers {
+			got := h.call()
+			n++
+			if !same(got, h.want) {
+				c19fail(t, "version-list", fmt.Sprintf("%s = %v, expected %v (round %d: rounds 1 and 2 come after callers overwrote the slices they were given)", h.name, got, h.want, round))
+				return
+			}
+			// the caller does what it likes with its slice
+			for i := range got {
+				got[i] = 0x06
+			}
+			got = append(got[:0], 0x07, 0x08)
+			_ = got
+		}
+		for x := 0; x < 256; x++ {
+			v := p.ProtocolVersion(x)
+			n++
+			if v.IsSupported() != inSpec[v] || (p.CheckSupportedProtocolVersion(v) == nil) != inSpec[v] {
+				c19fail(t, "version-list-predicate", fmt.Sprintf("after callers overwrote the version lists they were given: IsSupported(%#x)=%v, CheckSupportedProtocolVersion error=%v, expected supported=%v", x, v.IsSupported(), p.CheckSupportedProtocolVersion(v), inSpec[v]))
+				return
+			}
+		}
+	}
+	rec.Bulk(n, n, "version-lists")
+	rec.Exhaustive("version list helpers x 6 pivots x 3 rounds with caller-side overwrites, followed by the full 8-bit IsSupported sweep", n)
+}
